@@ -316,6 +316,16 @@ def check_site(idx, rep, res, ortho, fi, call, wrapper):
     text = ast.unparse(call)[:70]
     if wrapper in ("Unitary", "Stiefel"):
         bad = None
+        # a diagonal matrix is unitary iff every entry has modulus one; sign(x) has modulus one except at x = 0, where it is 0
+        inner = df.resolve_value(fi.node, call.args[0]) if call.args else None
+        r_in = idx.resolve_expr(fi.module, inner.func, fi) if isinstance(inner, ast.Call) else None
+        if r_in is not None and r_in.kind == "class" and r_in.val.name == "Diagonal" and inner.args:
+            dv = df.resolve_value(fi.node, inner.args[0])
+            if isinstance(dv, ast.Call) and (df.is_xnp_call(dv) == "sign" or (isinstance(dv.func, ast.Attribute) and dv.func.attr == "sign")):
+                rep.refuted("output-annotation", f"{role(fi)}:{wrapper}", f"`{text}`: sign(x) is 0 where x is 0, so the diagonal matrix has a zero column for every zero entry of "
+                            f"`{ast.unparse(dv.args[0]) if dv.args else '?'}` and is not {'unitary' if wrapper == 'Unitary' else 'orthonormal'} (witness: diag(2, 0, -1))",
+                            detail="sign-of-zero", locs=[loc])
+                return
         for m in mats:
             if wrapper == "Unitary" and m[2] == "count":
                 bad = ("non-square", f"the wrapped value has a caller-controlled number of columns (k / max_iters / rank < n): an n-by-k matrix is not unitary")
